@@ -139,7 +139,40 @@ func (g *Gen) builtinAggs(s schema) []Agg {
 	return aggs
 }
 
+// nullClauseFamilies: FilteredApply / Filter whose clause filters nothing away (Null, And(Null), a leaf that keeps
+// every row): what they hand back or release is the receiver's own index - followed by filters on this and on
+// other frames with results of every size; the receivers are re-observed after every step
+func (g *Gen) nullClauseFamilies() {
+	for rep := 0; rep < g.pick(24, 240); rep++ {
+		n := 2 + g.rng.Intn(7)
+		g.begin("null clause then filters")
+		f := g.do(g.stdNew(n, "ABS", 6))
+		o := g.do(g.stdNew(3+g.rng.Intn(8), "BA", 6))
+		if g.frame(f).Err != nil || g.frame(o).Err != nil {
+			g.end()
+			continue
+		}
+		cls := []Clause{{K: "null"}, {K: "and", Subs: []Clause{{K: "null"}}}, {K: "or", Subs: []Clause{{K: "null"}}},
+			{K: "leaf", Col: toBS("A"), CmpK: "str", Cmp: ">=", Arg: &Val{T: "int", I: math.MinInt64}}}
+		for k := 0; k < 3; k++ {
+			cl := cls[g.rng.Intn(len(cls))]
+			if g.rng.Intn(2) == 0 {
+				g.do(Step{Op: "FilteredApply", Recv: f, Clause: &cl, Instrs: []Instr{{Fn: FnRef{K: "fn1", Sym: "negI"}, Dst: toBS(g.oneOf([]string{"A", "N"})), Src1: toBS("A")}}})
+			} else {
+				g.do(Step{Op: "Filter", Recv: f, Clause: &cl})
+			}
+			for j := 0; j < 3; j++ {
+				t := g.oneOf2(f, o)
+				lf := Clause{K: "leaf", Col: toBS("A"), CmpK: "str", Cmp: g.oneOf([]string{"<", ">", "!=", "="}), Arg: &Val{T: "int", I: intPool[g.rng.Intn(8)]}}
+				g.do(Step{Op: "Filter", Recv: t, Clause: &lf})
+			}
+		}
+		g.end()
+	}
+}
+
 func genC01(g *Gen) {
+	g.nullClauseFamilies()
 	for rep := 0; rep < g.pick(30, 300); rep++ {
 		g.begin("sibling column additions")
 		g.siblingAdds(g.do(g.stdNew([]int{1, 3, 6}[g.rng.Intn(3)], g.oneOf([]string{"AB", "ABF", "SAT", "EXAF"}), 8)))
